@@ -76,6 +76,9 @@ def build(h, symbols=('BTC-USDT',), timeframes=('1m', '5m'), route_tfs=('5m',)):
     g[f'{BM}.config'] = lambda i: cfgd
     ov = ctx.cfg.overrides
     ov.update(stubs.backtest_mode())
+    # a position object exists for every symbol (code guarded by `if p:` must be executed, not skipped)
+    S.positions = {s: Obj(None, {'current_price': None, 'symbol': s, 'exchange_name': 'Sandbox'}, name=f'position[{s}]') for s in symbols}
+    ov['jesse.services.selectors.get_position'] = lambda i, a, k: S.positions.get(a[1])
     ov[f'{BM}._prepare_times_before_simulation'] = rec('prepare_times')
     ov[f'{BM}._prepare_routes'] = rec('prepare_routes')
     ov[f'{BM}.save_daily_portfolio_balance'] = lambda i, a, k: ev.append(('daily', tuple(a), dict(k)))
